@@ -46,6 +46,7 @@ def main():
         case = msg["case"]
         before = STATE.snapshot_counts()
         STATE.drain()
+        STATE.peak = 0.0
         rs = case.get("rs", [0])
         np.random.seed([int(v) % (2 ** 32) for v in rs])
         faulthandler.dump_traceback_later(
